@@ -5,7 +5,7 @@ Open Scope Z_scope.
 
 (* LD(A,B) = LD(B,A): the statistic is symmetric in the two dosage vectors *)
 Theorem C16_pearson_sym :
-  forall t d, length t = length d -> corr d t = corr t d.
+  forall t d, corr d t = corr t d.
 Proof. exact corr_sym. Qed.
 Print Assumptions C16_pearson_sym.
 
@@ -20,3 +20,109 @@ Theorem C16_pearson_sq_le_1 :
   forall t d s r, corr t d = Some (s, r) -> (0 <= r <= 1)%Q.
 Proof. exact corr_sq_le_1. Qed.
 Print Assumptions C16_pearson_sq_le_1.
+
+(* What calc_ld lists, in every mode: [listing_spec] (C16_Proofs.v) spells out the IDs and
+   their order - .hap mode: the requested haplotypes of the file, in file order, without
+   the target; --from-gts with a haplotype target: every variant in file order, or the
+   requested variants in --id order; --from-gts with a variant target: the requested
+   variants and the target, in file order. *)
+Theorem C16_ld_listing :
+  forall target gs lines keep ids fg rows,
+  calc_ld false target gs lines keep ids fg = Ok rows ->
+  map fst rows = listing_spec target gs lines ids fg.
+Proof. exact ld_listing_lemma. Qed.
+Print Assumptions C16_ld_listing.
+
+(* every requested haplotype or variant is listed, and nothing is listed twice *)
+Theorem C16_ld_requested_listed_once :
+  forall target gs lines keep ids fg rows,
+  calc_ld false target gs lines keep ids fg = Ok rows ->
+  NoDup (hap_ids lines) -> NoDup (var_ids gs) -> match ids with Some l => NoDup l | None => True end ->
+  NoDup (map fst rows) /\
+  forall id, req_in ids id ->
+    (if fg then In id (var_ids gs) else In id (hap_ids lines) /\ id <> target) -> In id (map fst rows).
+Proof. exact requested_listed_once. Qed.
+Print Assumptions C16_ld_requested_listed_once.
+
+(* the target haplotype itself is not listed *)
+Theorem C16_ld_target_haplotype_not_listed :
+  forall target gs lines keep ids rows,
+  calc_ld false target gs lines keep ids false = Ok rows -> ~ In target (map fst rows).
+Proof. exact target_hap_not_listed. Qed.
+Print Assumptions C16_ld_target_haplotype_not_listed.
+
+(* a variant target is listed among the variants with --from-gts *)
+Theorem C16_ld_variant_target_listed :
+  forall target gs lines keep ids rows,
+  calc_ld false target gs lines keep ids true = Ok rows ->
+  ~ In target (hap_ids lines) -> In target (var_ids gs) -> In target (map fst rows).
+Proof. exact variant_target_listed. Qed.
+Print Assumptions C16_ld_variant_target_listed.
+
+(* no mode raises: biallelic phased calls without missing values for the kept samples,
+   a .hap set whose alleles exist in the genotypes, a target that is a haplotype or a variant *)
+Theorem C16_ld_modes_total :
+  forall target gs lines keep ids fg,
+  inputs_ok target gs lines keep = true ->
+  exists rows, calc_ld false target gs lines keep ids fg = Ok rows.
+Proof. exact ld_modes_total_lemma. Qed.
+Print Assumptions C16_ld_modes_total.
+
+(* ... which the pinned tree violated: a variant target with --from-gts raised AttributeError *)
+Example C16_legacy_variant_fromgts_refuted :
+  wf witness16 = true /\ legacy_ld witness16 = Err E_Attr /\ holds_ld witness16 = false
+  /\ model_ld witness16 = Ok [(0, None)].
+Proof. exact legacy_refuted. Qed.
+Print Assumptions C16_legacy_variant_fromgts_refuted.
+
+(* the boolean checkers mean what the property says *)
+Theorem C16_r_near_sound :
+  forall printed m, r_near printed m = true -> r_near_spec printed m.
+Proof. exact r_near_sound. Qed.
+Print Assumptions C16_r_near_sound.
+
+Theorem C16_holds_ld_sound :
+  forall c rows td,
+  wf c = true -> l_obs c = Ok rows ->
+  dosage_of c (negb (target_is_hap c)) (l_target c) = Some td ->
+  holds_ld c = true ->
+  (forall r, In r rows -> exists d, dosage_of c (l_fg c) (fst r) = Some d /\ r_near_spec (snd r) (corr td d))
+  /\ (forall id, In id (requested c) -> countZ id (map fst rows) = 1)
+  /\ (target_is_hap c = true -> ~ In (l_target c) (map fst rows)).
+Proof. exact holds_ld_sound. Qed.
+Print Assumptions C16_holds_ld_sound.
+
+(* Every R of the model is the Pearson correlation of the target's and the listed item's
+   dosage computed from the whole matrix (a haplotype's dosage = number of strands carrying
+   all of its alleles; a variant's = the sum of its two calls). *)
+Theorem C16_ld_rows_are_correlations :
+  forall target gs lines keep ids fg rows,
+  NoDup (hap_ids lines) -> NoDup (var_ids gs) ->
+  calc_ld false target gs lines keep ids fg = Ok rows ->
+  exists td, dosage_spec gs lines keep (negb (memZ target (hap_ids lines))) target = Some td
+             /\ forall r, In r rows -> row_ok gs lines keep fg td r.
+Proof. exact ld_rows_lemma. Qed.
+Print Assumptions C16_ld_rows_are_correlations.
+
+(* the .hap and the .ld output modes agree: R(A) for target variant T in .hap mode is
+   R(T) for target haplotype A in --from-gts mode *)
+Theorem C16_hap_and_ld_outputs_agree :
+  forall gs lines keep T A rows1 rows2 r1 r2,
+  NoDup (hap_ids lines) -> NoDup (var_ids gs) ->
+  ~ In T (hap_ids lines) -> In A (hap_ids lines) ->
+  calc_ld false T gs lines keep None false = Ok rows1 -> In (A, r1) rows1 ->
+  calc_ld false A gs lines keep None true = Ok rows2 -> In (T, r2) rows2 ->
+  r1 = r2.
+Proof. exact hap_and_ld_outputs_agree_lemma. Qed.
+Print Assumptions C16_hap_and_ld_outputs_agree.
+
+(* the hypotheses are satisfiable, and the statement has content *)
+Example C16_outputs_agree_example :
+  let gs := [mkgv 10 0 1 [(0,1); (1,1); (0,0); (1,0)] []; mkgv 11 0 1 [(0,0); (1,1); (0,1); (0,0)] []] in
+  let lines := [HL (mkhap 1 [(10, 1); (11, 1)]); RL 2; HL (mkhap 3 [(11, 0)])] in
+  let keep := [true; true; true; true] in
+  exists r, In (1, r) (match calc_ld false 10 gs lines keep None false with Ok x => x | Err _ => [] end)
+         /\ In (10, r) (match calc_ld false 1 gs lines keep None true with Ok x => x | Err _ => [] end)
+         /\ r <> None.
+Proof. eexists. vm_compute. split; [left; reflexivity|]. split; [left; reflexivity|discriminate]. Qed.
+Print Assumptions C16_outputs_agree_example.
